@@ -45,14 +45,45 @@ namespace sim
 		assert(m_timer_queue.empty());
 	}
 
+#ifdef LIBSIMULATOR_VERIF
+	namespace verif
+	{
+		namespace {
+			step_hook_t g_step_hook = nullptr;
+			void* g_step_hook_user = nullptr;
+		}
+		void set_step_hook(step_hook_t hook, void* user)
+		{
+			g_step_hook = hook;
+			g_step_hook_user = user;
+		}
+	}
+#endif
+
 	std::size_t simulation::run() try
 	{
 		std::size_t ret = 0;
 		std::size_t last_executed = 0;
+#ifdef LIBSIMULATOR_VERIF
+		bool verif_timers_fired = false;
+#endif
 		do {
 
 			m_service.restart();
+#ifdef LIBSIMULATOR_VERIF
+			if (verif::g_step_hook && verif_timers_fired)
+				verif::g_step_hook(*this, 1, verif::g_step_hook_user);
+			verif_timers_fired = false;
+			last_executed = 0;
+			while (m_service.poll_one() > 0)
+			{
+				++last_executed;
+				if (verif::g_step_hook)
+					verif::g_step_hook(*this, 0, verif::g_step_hook_user);
+			}
+#else
 			last_executed = m_service.poll();
+#endif
 			ret += last_executed;
 
 			chrono::high_resolution_clock::time_point now
@@ -73,6 +104,9 @@ namespace sim
 					next_timer->fire(boost::system::error_code());
 					++last_executed;
 					++ret;
+#ifdef LIBSIMULATOR_VERIF
+					verif_timers_fired = true;
+#endif
 				}
 			}
 
